@@ -167,7 +167,9 @@ class ConcurrentExecutor(ABC, Generic[CallableType, ResultType]):
         # status, the counters and taking the complete/suspend decision must be one atomic step,
         # otherwise a callback can see another branch's new status with stale counters and
         # decide to suspend although the completion policy is already decided.
-        self._task_complete_lock = threading.Lock()
+        # Re-entrant: a task resubmitted under the lock may finish at once and run its
+        # done-callback on the submitting thread.
+        self._task_complete_lock = threading.RLock()
         self._suspend_exception: SuspendExecution | None = None
         # BaseException (e.g. BackgroundThreadError after a failed checkpoint) raised by a branch
         # or by the timer thread: re-raised on the thread that waits in execute()
@@ -224,7 +226,12 @@ class ConcurrentExecutor(ABC, Generic[CallableType, ResultType]):
             """Resubmit a timed suspended task."""
             try:
                 execution_state.create_checkpoint()
-                submit_task(executable_with_state)
+                with self._task_complete_lock:
+                    if self._completion_event.is_set():
+                        # Completion or suspension is already decided: starting the branch now
+                        # would run user code while the invocation returns.
+                        return
+                    submit_task(executable_with_state)
             except BaseException as e:  # noqa: BLE001
                 # e.g. BackgroundThreadError: checkpointing failed. Nobody else would ever
                 # finish this branch, so wake the waiting thread and let it raise.
